@@ -4,6 +4,14 @@ import json, os
 V = os.path.dirname(os.path.dirname(os.path.abspath(__file__)))
 
 CLAIMED = {
+ 'C15': dict(
+  text='Static decision of the structural clauses of the codec property: Base64 alphabet/inverse-table agreement on all 64 symbols and 6-bit '
+       'index masking, hex nibble table, exact byte sets of Url::encode in both modes (% always escaped, & = + escaped in component mode, '
+       'escape form inverted by the decoder), look-ahead of Url::decode dominated by its length guard, block-loop bounds of encodeBase64 / '
+       'decodeHex / SHA1::update consuming exactly the full blocks, decodeBase64 bounded by the given length, padding counted across '
+       'whitespace (byte-set of the scan condition), non-negative result length. SHA-1 = FIPS 180-4 on all messages is not decided.',
+  technique='constant table evaluation, exact byte-set evaluation of guards (powerset-of-bytes domain), loop stride/bound agreement and dominating-guard queries over the resolved AST',
+  ref='DESIGN.md section 3 C15'),
  'C08': dict(
   text='Static decision of the structural clauses of UTF conversion safety and standard form: NUL-guarded cursor advance in every converter '
        'and in count() (typestate over all CFG paths), the code-point enumerator never reports more bytes than it verified, bit-provenance '
